@@ -320,6 +320,8 @@ def judge_stage(case):
 
 
 def judge(case):
+    if case.get('hash'):
+        return judge_hash(case)
     if 'stage' in case:
         return judge_stage(case)
     conf = case['conf']
@@ -524,6 +526,66 @@ def judge_env(case):
     return []
 
 
+# ---- the content hash is the MD5 of the UTF-8 contents -----------------------------------------
+
+HASH_PATTERNS = ['ascii', 'first-2byte', 'last-2byte', 'all-2byte', 'all-3byte', 'all-4byte', 'mixed', 'surrogate-free-bmp-end']
+
+
+def hash_contents(pattern, length):
+    if length == 0:
+        return ''
+    if pattern == 'ascii':
+        return ('abcdefghij\n' * (length // 11 + 1))[:length]
+    if pattern == 'first-2byte':
+        return '\u00a9' + 'x' * (length - 1)
+    if pattern == 'last-2byte':
+        return 'x' * (length - 1) + '\u00e9'
+    if pattern == 'all-2byte':
+        return '\u00e9' * length
+    if pattern == 'all-3byte':
+        return '\u6f22' * length
+    if pattern == 'all-4byte':
+        return '\U0001f600' * length
+    if pattern == 'mixed':
+        return ('a\u00e9\u6f22\U0001f600\n' * (length // 5 + 1))[:length]
+    return 'x' * (length - 1) + '\uffff'
+
+
+def work_hash(job):
+    """Every content length in [lo, hi) x every pattern of non-ASCII characters: reported hash == md5(utf-8)."""
+    import hashlib  # pylint: disable=import-outside-toplevel
+    from dznpy.text_gen import GeneratedContent  # pylint: disable=import-outside-toplevel
+    lo, hi = job
+    part = Partial()
+    for length in range(lo, hi):
+        for pattern in HASH_PATTERNS:
+            text = hash_contents(pattern, length)
+            part.evaluations += 1
+            try:
+                got = GeneratedContent('f.hh', text).hash
+            except Exception as exc:  # pylint: disable=broad-except
+                part.violation(f'content-hash-exception:{type(exc).__name__}', f'{pattern} length {length}: {exc!r}',
+                               {'hash': True, 'pattern': pattern, 'length': length})
+                continue
+            if got != hashlib.md5(text.encode('utf-8')).hexdigest():
+                part.violation(f'content-hash-is-not-md5-of-utf8:{pattern}',
+                               f'{pattern} contents of {length} characters ({len(text.encode("utf-8"))} bytes): reported {got}',
+                               {'hash': True, 'pattern': pattern, 'length': length})
+    part.states = part.evaluations
+    part.transitions = part.evaluations
+    part.nontrivial = part.evaluations
+    return part
+
+
+def judge_hash(case):
+    import hashlib  # pylint: disable=import-outside-toplevel
+    from dznpy.text_gen import GeneratedContent  # pylint: disable=import-outside-toplevel
+    text = hash_contents(case['pattern'], case['length'])
+    if GeneratedContent('f.hh', text).hash != hashlib.md5(text.encode('utf-8')).hexdigest():
+        return [(f'content-hash-is-not-md5-of-utf8:{case["pattern"]}', f'length {case["length"]}')]
+    return []
+
+
 def child_run(seed):
     env = dict(os.environ)
     env['PYTHONHASHSEED'] = str(seed)
@@ -580,6 +642,12 @@ def explore(ctx):
                                   f'PYTHONHASHSEED={seed} insertion {"reversed" if rev else "forward"}: files {diff} '
                                   f'differ from the explored output | conf={key}',
                                   {'child': True, 'seed': seed, 'conf': json.loads(key)})
+    # hash law on synthetic contents: every length up to a bound that covers the usual block sizes
+    top = 66000 if th else 9000
+    step = 500
+    for part in pmap(work_hash, [(lo, min(lo + step, top)) for lo in range(0, top, step)]):
+        ctx.merge(part)
+    ctx.bounds_hash = top
     # every single deviation from the default environment answer
     idxs = env_conf_indices(len(confs))
     nenv = 0
@@ -614,7 +682,8 @@ def explore(ctx):
                 'deviation from the default environment answer (what the source file name denotes in the working '
                 'directory, environment variables, clock, umask, program name)')
     ctx.bounds = {'deviation_bound': '2 (3 on two configurations)' if th else '1 (2 on two configurations)',
-                  'hash_seeds': len(seeds), 'configurations': len(confs)}
+                  'hash_seeds': len(seeds), 'configurations': len(confs),
+                  'content_hash_lengths': f'0..{ctx.bounds_hash - 1} characters x {len(HASH_PATTERNS)} non-ASCII patterns'}
     ctx.assumptions += ['only iteration over sets of port names is a source of nondeterminism in a build (dicts keep '
                         'insertion order; no clock, randomness or environment is read) - validated by the real '
                         'PYTHONHASHSEED runs, which must reproduce the explored output exactly']
